@@ -331,7 +331,8 @@ def mux_check(prop, tier, seed, replay):
                 scfg = {"C13": "MC_MuxSched_bridge.cfg", "C15": "MC_MuxSched_bind.cfg"}.get(prop, "MC_MuxSched.cfg")
                 if prop in ("C13", "C15"):
                     nb = 40 if tier == "quick" else 1200
-                sch, nstates = tlc_sched.schedules(nb, 70, seed, cfg=scfg)
+                # a different simulation seed per property: the checks of the family explore different behaviours
+                sch, nstates = tlc_sched.schedules(nb, 70, seed * 37 + int(prop[1:]), cfg=scfg)
                 if not sch:
                     raise ToolError("TLC simulation produced no schedules")
                 sj = os.path.join(work, "tlc_sched.json")
